@@ -126,6 +126,7 @@ class ModuleInfo:
         self.pkg_mods = {}             # local name -> package module (from . import x)
         self.globals_init = {}         # global name -> ast expr (module-level value)
         self.lazy = set()              # globals initialised to None
+        self.memo_dicts = set()        # globals initialised to an empty dict
         self.functions = {}            # qualified name -> ast.FunctionDef
         self.classes = {}              # class name -> [method names]
         self.helper_mods = set()
@@ -205,6 +206,12 @@ class ModuleInfo:
                         self.lazy.add(d)
                     else:
                         self.lazy.discard(d)
+                    if (isinstance(n.value, ast.Dict) and not n.value.keys) or (
+                            isinstance(n.value, ast.Call) and isinstance(n.value.func, ast.Name)
+                            and n.value.func.id == "dict" and not n.value.args and not n.value.keywords):
+                        self.memo_dicts.add(d)
+                    else:
+                        self.memo_dicts.discard(d)
             elif isinstance(n, ast.Expr) and isinstance(n.value, ast.Constant):
                 pass                                    # docstring
             elif isinstance(n, ast.If) and ast.unparse(n.test).startswith("__name__"):
@@ -237,7 +244,9 @@ class FnResult:
         self.inplace = []          # (param index, line, form)
         self.calls = []            # dict(callee, args=[set(roots)], kwargs, line, seeded, filled, ctl)
         self.ret_alias = set()     # param indices the result may alias
+        self.ret_galias = set()    # module-level objects the result may alias
         self.mutable_defaults = {}  # param index -> default text
+        self.memo_globals = set()
         self.scalar_aug = 0
         self.user_callable_alias = 0
 
@@ -251,6 +260,7 @@ class State:
         self.exited = False        # an argument-dependent exit happened earlier
         self.taint = set()         # local names whose value may depend on a parameter (flow-sensitive)
         self.facts = {}            # local name -> True (known to be None here) / False (known not None)
+        self.keys = {}             # local name -> parameters it is a tuple of (dict keys)
 
     def copy(self):
         s = State()
@@ -261,6 +271,7 @@ class State:
         s.exited = self.exited
         s.taint = set(self.taint)
         s.facts = dict(self.facts)
+        s.keys = dict(self.keys)
         return s
 
     @staticmethod
@@ -275,11 +286,15 @@ class State:
         s.exited = a.exited or b.exited
         s.taint = a.taint | b.taint
         s.facts = {k: v for k, v in a.facts.items() if b.facts.get(k) is v}
+        s.keys = {k: v for k, v in a.keys.items() if b.keys.get(k) == v}
         return s
 
 
 class FnAnalysis:
-    def __init__(self, prog, mod, qname, fdef):
+    def __init__(self, prog, mod, qname, fdef, taint_sources=None):
+        self.taint_sources = taint_sources          # None: every parameter (memo probe: the non-key ones)
+        self.memo_probe = {}                        # line -> stored value and control free of the sources
+        self.memo_cands = []                        # (global, key parameters, line)
         self.prog = prog
         self.mod = mod
         self.qname = qname
@@ -357,8 +372,9 @@ class FnAnalysis:
                 return False
             if e.id in st.taint:
                 return True
-            if self.is_global_name(e.id) and (self.mod.name + "." + e.id) in self.prog.nonconst_globals:
-                return True
+            if self.is_global_name(e.id) and e.id not in self.mod.memo_dicts \
+                    and (self.mod.name + "." + e.id) in self.prog.nonconst_globals:
+                return True          # (a dict initialised empty is judged where it is written: memo entry or not)
             return False
         if isinstance(e, (ast.ListComp, ast.SetComp, ast.GeneratorExp, ast.DictComp)):
             b = set(bound)
@@ -481,6 +497,8 @@ class FnAnalysis:
             base = self.roots(e.value, st)
             if not base:
                 return base
+            if isinstance(e.value, ast.Name) and self.is_global_name(e.value.id) and e.value.id in self.mod.memo_dicts:
+                return base                  # an entry of a module-level dict: the stored object itself
             return base if self._index_is_view(e.slice, st) else frozenset()
         if isinstance(e, ast.Starred):
             return self.roots(e.value, st)
@@ -512,7 +530,12 @@ class FnAnalysis:
         """basic indexing (slices, integers, Ellipsis, None) gives a view; a boolean or integer array
         index gives a fresh array"""
         if isinstance(sl, ast.Tuple):
-            return all(self._index_is_view(x, st) for x in sl.elts)
+            # a name of unknown type next to a slice / Ellipsis (`w[node, :]`) is read as an integer: basic
+            # indexing, a view (conservative: an index array there would give a copy)
+            has_slice = any(isinstance(x, ast.Slice) or (isinstance(x, ast.Constant) and x.value is Ellipsis)
+                            for x in sl.elts)
+            return all((has_slice and isinstance(x, ast.Name) and x.id not in self.array_evidence)
+                       or self._index_is_view(x, st) for x in sl.elts)
         if isinstance(sl, ast.Slice):
             return True
         if isinstance(sl, ast.Constant):
@@ -576,6 +599,7 @@ class FnAnalysis:
             if summ is not None:
                 for p in summ["ret_alias"]:
                     r |= self.arg_roots_for_param(c, target, p, st)
+                r |= frozenset("G:" + g for g in summ.get("ret_galias", ()))
             return r
         if kind == "class":
             return allr                      # the object keeps references to its constructor arguments
@@ -878,6 +902,13 @@ class FnAnalysis:
                 return
             n = target.id
             st.alias[n] = roots
+            st.keys.pop(n, None)
+            for kk in [kk for kk, vv in st.keys.items() if n in vv]:
+                del st.keys[kk]                 # a key parameter was rebound: the tuple no longer names it
+            if value is not None and isinstance(value, (ast.Tuple, ast.Name)) and n not in self.params:
+                kp = self._key_params(value, st)
+                if kp:
+                    st.keys[n] = kp
             if vt:
                 st.taint.add(n)
             else:
@@ -937,11 +968,104 @@ class FnAnalysis:
             self.visit_exprs(target.slice, st, ctl)
             if b is not None and b in self.local_names and (vt or self.expr_tainted(target.slice, st)):
                 st.taint.add(b)
+            if base and self._memo_store(target, value, st, ctl, line):
+                return
             if base:
                 self.note_write(base, line, "%s = ..." % ast.unparse(target)[:60], st,
                                 ([value] if value is not None else []) + [target.slice], ctl)
             return
         raise Unrecognised("%s: assignment target %s" % (self.qname, type(target).__name__))
+
+    # -- memo tables keyed by the arguments ------------------------------------------------------
+    def _key_params(self, e, st):
+        """parameters a dict key is made of: a parameter still bound to the caller's value, a tuple of such,
+        or a local bound to such a tuple; None when the key is anything else"""
+        if isinstance(e, ast.Name):
+            if e.id in self.params and st.alias.get(e.id) == frozenset(["P:%d" % self.params.index(e.id)]):
+                return (e.id,)
+            return st.keys.get(e.id) if hasattr(st, "keys") else None
+        if isinstance(e, ast.Tuple):
+            out = ()
+            for x in e.elts:
+                k = self._key_params(x, st) if isinstance(x, ast.Name) and x.id in self.params else None
+                if k is None:
+                    return None
+                out += k
+            return out
+        return None
+
+    def _memo_store(self, target, value, st, ctl, line):
+        """`G[key] = value` on a module-level dict G initialised empty, key made of parameters only.  The
+        store is a memo entry if the value (and the control around it) depends on nothing but the key
+        parameters - decided by a second pass in which only the OTHER parameters are taint sources."""
+        if not (isinstance(target.value, ast.Name) and self.is_global_name(target.value.id)
+                and target.value.id in self.mod.memo_dicts):
+            return False
+        kp = self._key_params(target.slice, st)
+        if not kp or value is None:
+            return False
+        g = self.mod.name + "." + target.value.id
+        if self.taint_sources is not None:
+            ok = not self.expr_tainted(value, st) and not self.ctl_tainted(ctl) and not self._has_rng(value) \
+                and not self.param_roots(self.roots(value, st))
+            self.memo_probe[line] = self.memo_probe.get(line, True) and ok
+            return True
+        self.memo_cands.append((g, tuple(kp), line, ast.unparse(target.slice)))
+        return True
+
+    def _settle_memo(self):
+        by_g = {}
+        for g, kp, line, ktxt in self.memo_cands:
+            by_g.setdefault(g, []).append((kp, line, ktxt))
+        for g, stores in by_g.items():
+            why = None
+            for kp, line, ktxt in stores:
+                probe = FnAnalysis(self.prog, self.mod, self.qname, self.f,
+                                   taint_sources=set(self.params) - set(kp))
+                probe.run()
+                if not probe.memo_probe.get(line, False):
+                    why = "the stored value depends on more than the key (%s)" % ktxt
+            name = g.split(".", 1)[1]
+            why = why or self._memo_uses_ok(name, {s[2] for s in stores})
+            if why is None:
+                self._gwrite(g, "KMemo", "memo entry %s[%s] = f(key)" % (name, stores[0][2]), stores[0][1])
+                self.res.greads.add(g)
+                self.res.memo_globals.add(g)
+            else:
+                self._gwrite(g, "KAccum", "in-place update of an initialised module table: %s[...] = ... (%s)" % (
+                    name, why), stores[0][1])
+
+    def _memo_uses_ok(self, name, key_texts):
+        """every other mention of the table in its module is a lookup / membership test by the same key, inside
+        this function"""
+        parents = {}
+        for fq, fd in self.mod.functions.items():
+            for n in ast.walk(fd):
+                for ch in ast.iter_child_nodes(n):
+                    parents[ch] = n
+            for n in ast.walk(fd):
+                if isinstance(n, ast.Name) and n.id == name:
+                    if fd is not self.f:
+                        if name in {x.id for x in ast.walk(fd) if isinstance(x, ast.Name)
+                                    and isinstance(x.ctx, ast.Store)} or name in {a.arg for a in fd.args.args}:
+                            continue         # a local of that name
+                        return "the table is also used in %s" % fq
+                    par = parents.get(n)
+                    if isinstance(par, ast.Subscript) and par.value is n and ast.unparse(par.slice) in key_texts:
+                        continue
+                    if isinstance(par, ast.Compare) and len(par.ops) == 1 and isinstance(par.ops[0], (ast.In, ast.NotIn)) \
+                            and par.comparators[0] is n and ast.unparse(par.left) in key_texts:
+                        continue
+                    if isinstance(par, ast.Global):
+                        continue
+                    return "the table is used other than by its key at line %d" % n.lineno
+        for other in self.prog.modules.values():
+            if other is self.mod:
+                continue
+            for n in ast.walk(other.tree):
+                if isinstance(n, ast.Attribute) and n.attr == name:
+                    return "the table is reached from module %s" % other.name
+        return None
 
     def global_rebind(self, name, value, st, ctl, line, vt=False):
         g = self.mod.name + "." + name
@@ -1017,8 +1141,11 @@ class FnAnalysis:
         if isinstance(s, ast.Return):
             self.visit_exprs(s.value, st, ctl)
             if s.value is not None:
-                for p in self.param_roots(self.roots(s.value, st)):
+                rr = self.roots(s.value, st)
+                for p in self.param_roots(rr):
                     self.res.ret_alias.add(p)
+                for g in self.global_roots(rr):
+                    self.res.ret_galias.add(g)
             if self.ctl_tainted(ctl):
                 st.exited = True
             return st
@@ -1215,8 +1342,12 @@ class FnAnalysis:
         st = State()
         for k, p in enumerate(self.params):
             st.alias[p] = frozenset(["P:%d" % k])
-            st.taint.add(p)
+            if self.taint_sources is None or p in self.taint_sources:
+                st.taint.add(p)
         self.run_block(self.f.body, st, [])
+        if self.taint_sources is None:
+            self._settle_memo()
+        self.res.array_params = [p for p in self.params if p in self.array_evidence and p != "self"]
         return self.res
 
 
@@ -1273,7 +1404,7 @@ class Program:
 
     def close(self, res):
         """transitive summaries: parameter writes, returned aliases, global writes/reads, RNG use"""
-        summ = {q: {"ret_alias": set(r.ret_alias), "writes": {(p, l, f) for p, l, f in r.inplace},
+        summ = {q: {"ret_galias": set(r.ret_galias), "ret_alias": set(r.ret_alias), "writes": {(p, l, f) for p, l, f in r.inplace},
                     "gwrites": set(r.gwrites), "greads": set(r.greads),
                     "unguarded": set(r.unguarded_reads),
                     "draws": bool(r.draws), "undominated": any(not d for _, d in r.draws),
@@ -1384,14 +1515,15 @@ def translate(read_source, exempt=None):
     gnames = sorted(gset)
     gid = {g: k for k, g in enumerate(gnames)}
     fid = {q: k for k, q in enumerate(fns)}
-    kinds = {"KConst": 0, "KArg": 1, "KAccum": 2}
+    kinds = {"KConst": 0, "KArg": 1, "KAccum": 2, "KMemo": 3}
+    severity = {0: 0, 3: 1, 1: 2, 2: 3}
     table = []
     for q in fns:
         s = prog.summary[q]
         r = prog.results[q]
         fills = {}
         for (g, kind, form, line) in sorted(s["gwrites"]):
-            fills[g] = max(fills.get(g, 0), kinds[kind])
+            fills[g] = max(fills.get(g, 0), kinds[kind], key=lambda c: severity[c])
         seed_dom = s["draws"] and not s["undominated"] and not s["bad_seed"] and s["seed"] is not None
         cand = sorted({(p, l) for (p, l, f) in s["writes"]})
         forms = {}
@@ -1411,6 +1543,7 @@ def translate(read_source, exempt=None):
             "ret_alias": sorted(s["ret_alias"]),
             "mutable_defaults": {str(k): v for k, v in r.mutable_defaults.items()},
             "scalar_aug": r.scalar_aug,
+            "array_params": list(getattr(r, "array_params", [])),
         }
         table.append(entry)
     side = {"functions": table, "globals": gnames, "modules": sorted(prog.modules),
@@ -1442,7 +1575,7 @@ def coq_text(side):
     A("")
     A("Definition sigs : list sig := [")
     rows = []
-    kn = ["KConst", "KArg", "KAccum"]
+    kn = ["KConst", "KArg", "KAccum", "KMemo"]
     for e in side["functions"]:
         fills = "; ".join("(%d, %s)" % (g, kn[k]) for g, k in e["fills"])
         reads = "; ".join(str(g) for g in e["reads"])
